@@ -15,6 +15,7 @@ import (
 	"go/token"
 	"os"
 	"path/filepath"
+	"reflect"
 	"sort"
 	"strconv"
 	"strings"
@@ -775,6 +776,135 @@ func main() {
 	acc = append(acc, sharedScan("pkg/authentication/basic/htpasswd.go", "htpasswdMap", "users", "rwm", "")...)
 	acc = append(acc, sharedScan("validator.go", "UserMap", "m", "", "um")...)
 	emit("def sharedAccesses : List String := %s\n", lstrsNL(acc))
+
+	// ------------------------------------------------------------------ F9 configuration path
+	// What "is configured" means: every flag definition (kind, name, default), every option struct tag (flag and
+	// config-file name), the defaults of the structured options, and the text of the conversion / loading functions
+	// between what a user writes and `options.Options`.
+	{
+		type fdef struct{ name, line string }
+		var defs []fdef
+		var tags []string
+		for _, rel := range []string{"pkg/apis/options/options.go", "pkg/apis/options/cookie.go", "pkg/apis/options/sessions.go", "pkg/apis/options/logging.go",
+			"pkg/apis/options/legacy_options.go", "pkg/apis/options/app.go", "pkg/apis/options/providers.go", "pkg/apis/options/upstreams.go", "pkg/apis/options/header.go"} {
+			if _, err := os.Stat(filepath.Join(repo, rel)); err != nil {
+				continue
+			}
+			f := parse(rel)
+			ast.Inspect(f, func(n ast.Node) bool {
+				switch v := n.(type) {
+				case *ast.CallExpr:
+					name := calleeName(v)
+					if strings.HasPrefix(name, "flagSet.") && len(v.Args) >= 2 {
+						if fl, ok := strLit(v.Args[0]); ok {
+							defs = append(defs, fdef{fl, strings.TrimPrefix(name, "flagSet.") + " " + fl + " = " + src(v.Args[1])})
+						}
+					}
+				case *ast.TypeSpec:
+					if st, ok := v.Type.(*ast.StructType); ok {
+						for _, fld := range st.Fields.List {
+							if fld.Tag == nil {
+								continue
+							}
+							tag, _ := strconv.Unquote(fld.Tag.Value)
+							fl, cf := reflect.StructTag(tag).Get("flag"), reflect.StructTag(tag).Get("cfg")
+							if fl == "" {
+								continue
+							}
+							for _, nm := range fld.Names {
+								tags = append(tags, fl+" "+cf+" "+v.Name.Name+"."+nm.Name+" "+src(fld.Type))
+							}
+						}
+					}
+				}
+				return true
+			})
+		}
+		sort.Slice(defs, func(i, j int) bool { return defs[i].name < defs[j].name })
+		sort.Strings(tags)
+		groups := []struct {
+			id   string
+			pick func(string) bool
+		}{
+			{"cookie", func(n string) bool { return strings.HasPrefix(n, "cookie-") }},
+			{"bypass", func(n string) bool {
+				return strings.HasPrefix(n, "skip-auth-") || n == "trusted-ip" || n == "api-route" || n == "reverse-proxy" || n == "real-client-ip-header" || n == "force-https"
+			}},
+			{"redirect", func(n string) bool {
+				return n == "whitelist-domain" || n == "redirect-url" || n == "relative-redirect-url" || n == "encode-state" || n == "skip-provider-button" || n == "proxy-prefix"
+			}},
+			{"authz", func(n string) bool {
+				return n == "email-domain" || n == "authenticated-emails-file" || strings.HasPrefix(n, "htpasswd-") || n == "allowed-group" || n == "allowed-role"
+			}},
+			{"headers", func(n string) bool {
+				return strings.HasPrefix(n, "pass-") && n != "pass-host-header" || strings.HasPrefix(n, "set-") || n == "prefer-email-to-user" || n == "basic-auth-password" || n == "skip-auth-strip-headers"
+			}},
+			{"upstream", func(n string) bool {
+				return n == "upstream" || n == "pass-host-header" || n == "proxy-websockets" || n == "flush-interval" || n == "upstream-timeout" || n == "ssl-upstream-insecure-skip-verify"
+			}},
+			{"tokens", func(n string) bool {
+				return strings.HasPrefix(n, "oidc-") || strings.HasPrefix(n, "insecure-oidc-") || n == "skip-oidc-discovery" || n == "user-id-claim" || n == "skip-jwt-bearer-tokens" ||
+					n == "extra-jwt-issuers" || n == "skip-claims-from-profile-url" || n == "client-id" || n == "provider" || strings.HasSuffix(n, "code-challenge-method") ||
+					n == "login-url" || n == "redeem-url" || n == "profile-url" || n == "validate-url" || n == "backend-logout-url" || n == "scope" || n == "prompt" || n == "approval-prompt"
+			}},
+			{"session", func(n string) bool { return strings.HasPrefix(n, "session-") || strings.HasPrefix(n, "redis-") }},
+		}
+		emit("\n/-- flag definitions `Kind name = default` (source text of the default), grouped by what they configure -/\n")
+		for _, g := range groups {
+			var xs []string
+			for _, d := range defs {
+				if g.pick(d.name) {
+					xs = append(xs, d.line)
+				}
+			}
+			emit("def flags_%s : List String := %s\n", g.id, lstrsNL(xs))
+			var ts []string
+			for _, t := range tags {
+				if g.pick(strings.SplitN(t, " ", 2)[0]) {
+					ts = append(ts, t)
+				}
+			}
+			emit("def optionTags_%s : List String := %s\n", g.id, lstrsNL(ts))
+		}
+		// full (comment-free, gofmt-normalised) text of the functions on the configuration path
+		text := func(rel, fn string) []string {
+			fd := funcs(parse(rel))[fn]
+			if fd == nil || fd.Body == nil {
+				return []string{"<missing " + fn + ">"}
+			}
+			var ls []string
+			for _, l := range strings.Split(src(fd.Body), "\n") {
+				if t := strings.TrimSpace(l); t != "" {
+					ls = append(ls, t)
+				}
+			}
+			return ls
+		}
+		for _, g := range []struct {
+			id  string
+			fns [][2]string
+		}{
+			{"loader", [][2]string{{"main.go", "loadConfiguration"}, {"main.go", "loadLegacyOptions"}, {"main.go", "loadAlphaOptions"}, {"main.go", "loadOptions"},
+				{"pkg/apis/options/load.go", "Load"}, {"pkg/apis/options/load.go", "registerFlags"}, {"pkg/apis/options/load.go", "LoadYAML"}, {"pkg/apis/options/load.go", "loadAndParseYaml"},
+				{"pkg/apis/options/alpha_options.go", "AlphaOptions.MergeInto"}, {"pkg/apis/options/legacy_options.go", "LegacyOptions.ToOptions"},
+				{"pkg/apis/options/legacy_options.go", "NewLegacyOptions"}, {"pkg/apis/options/options.go", "NewOptions"}}},
+			{"cookieDefaults", [][2]string{{"pkg/apis/options/cookie.go", "cookieDefaults"}, {"pkg/apis/options/sessions.go", "sessionOptionsDefaults"}}},
+			{"legacyProvider", [][2]string{{"pkg/apis/options/legacy_options.go", "LegacyProvider.convert"}, {"pkg/apis/options/providers.go", "providerDefaults"}}},
+			{"legacyHeaders", [][2]string{{"pkg/apis/options/legacy_options.go", "LegacyHeaders.convert"}, {"pkg/apis/options/legacy_options.go", "LegacyHeaders.getRequestHeaders"},
+				{"pkg/apis/options/legacy_options.go", "LegacyHeaders.getResponseHeaders"}, {"pkg/apis/options/legacy_options.go", "getBasicAuthHeader"},
+				{"pkg/apis/options/legacy_options.go", "getPassUserHeaders"}, {"pkg/apis/options/legacy_options.go", "getPassAccessTokenHeader"},
+				{"pkg/apis/options/legacy_options.go", "getAuthorizationHeader"}, {"pkg/apis/options/legacy_options.go", "getPreferredUsernameHeader"},
+				{"pkg/apis/options/legacy_options.go", "getXAuthRequestHeaders"}, {"pkg/apis/options/legacy_options.go", "getXAuthRequestAccessTokenHeader"}}},
+			{"legacyUpstreams", [][2]string{{"pkg/apis/options/legacy_options.go", "LegacyUpstreams.convert"}}},
+		} {
+			var ls []string
+			for _, fn := range g.fns {
+				ls = append(ls, "func "+fn[1]+" {")
+				ls = append(ls, text(fn[0], fn[1])...)
+			}
+			emit("def cfgText_%s : List String := %s\n", g.id, lstrsNL(ls))
+		}
+	}
 
 	emit("\nend O2P.Facts\n")
 	if err := os.WriteFile(os.Args[2], out.Bytes(), 0o644); err != nil {
